@@ -1,7 +1,7 @@
 /-
   XotModel.Lemmas.LexFreeBuild — from the tokenizer's layout theorems to `parseString`: the builder
   does not look at byte positions (`build_erase_ok`), and a `Declaration` token of version 1.0 is a
-  no-op for it.
+  no-op for it; `parseString_of_ldoc` puts the two together for a whole laid-out document (`LDoc`).
 -/
 import XotModel.Lemmas.LexFreeTop
 import XotModel.Lemmas.ParseErase
@@ -24,5 +24,33 @@ theorem parseString_of_lex (m : Mode) (env : Env) (s : Str) (ts : List Token) (l
   unfold parseString
   rw [hlex.2]
   exact build_erase_ok m len (strLen s) env ts (lexMode m s).1 hlex.1.symm p hb
+
+/-- A whole laid-out document (BOM or not, XML declaration of version 1.0 or not, items, trailing
+    white space) whose items are — up to positions — a token list on which `build` succeeds:
+    `parseString` of its text succeeds with the same tree and interning tables. -/
+theorem parseString_of_ldoc (env : Env) (ts : List Token) (p0 : Parsed)
+    (hb : build .document 0 env ts none = .ok p0) (d : LDoc)
+    (hl : d.items.map (Token.erase ∘ LToken.token) = ts.map Token.erase)
+    (hok : d.ok = true) (hver : ∀ x, d.decl = some x → x.minor = ['0']) :
+    ∃ p, parseString .document env d.render = .ok p ∧ p.tree = p0.tree ∧ p.env = p0.env := by
+  obtain ⟨ts', e, he⟩ := lexDocument_layout_doc d hok
+  have hitems : (d.items.map LToken.token).map Token.erase = ts.map Token.erase := by rw [← hl, List.map_map]
+  have hlex : ∀ us : List Token, d.tokens.map Token.erase = us.map Token.erase →
+      (lexMode .document d.render).1.map Token.erase = us.map Token.erase ∧
+        (lexMode .document d.render).2 = none := by
+    intro us hus
+    rw [show lexMode .document d.render = (ts', none) from e]
+    exact ⟨he.trans hus, rfl⟩
+  cases hdec : d.decl with
+  | none =>
+    obtain ⟨p, hp, ht, hev, _⟩ := parseString_of_lex .document env _ _ 0 p0
+      (hlex _ (by simp [LDoc.tokens, hdec, hitems])) hb
+    exact ⟨p, hp, ht, hev⟩
+  | some x =>
+    have hb' : build .document 0 env (x.token :: ts) none = .ok p0 := by
+      rw [LDecl.token, build_declaration _ _ _ _ _ _ _ _ _ (by rw [hver x hdec]), hb]
+    obtain ⟨p, hp, ht, hev, _⟩ := parseString_of_lex .document env _ _ 0 p0
+      (hlex _ (by simp [LDoc.tokens, hdec, hitems])) hb'
+    exact ⟨p, hp, ht, hev⟩
 
 end XotModel
